@@ -356,3 +356,11 @@ package cisco
 //vc:  invariant[C02,C14] 1 "for i := pos - 1; i >= 0; i--" true
 //vc:  invariant[C02,C14] 2 "for i := pos; i < len(al); i++" true
 //vc:  ensures[C02,C14] @blockInFrontOfInsertPosition (pos == 0 ==> result0 == "") && (result0 != "" ==> pos > 0 && result1 == idx2Block[pos-1])
+
+// C07 (ASA): when an interface of the device is registered that Netspoc does
+// not know, the commands bound to it (access-groups, crypto map) have been
+// handed to markNeeded in this iteration - shut down or not.
+//vc:ghost var protectedIntf set[string]
+//vc:func (*State).checkASAInterfaces
+//vc:  assign after "s.markNeeded(aIntf2cmd[name])" protectedIntf = store(protectedIntf, name, true)
+//vc:  assert[C07] at "aIntf2cmd[name] = nil" @unknownInterfaceProtected !(name in bIntf2cmd) ==> protectedIntf[name]
